@@ -880,6 +880,11 @@ class Executor:
                             raise Unsupported(f"{e}   [at {_short_fn(fr_.name)}:{fr_.block}, path {''.join(st.trace)[-40:]}]")
                         raise
                 except Fork as fk:
+                    # wall-clock cap per exploration (an edited tree must never hang a check: exit 2 instead)
+                    if time.time() > getattr(self, "deadline", float("inf")):
+                        raise Unsupported("time cap of the obligation exceeded while forking (path explosion)")
+                    if len(st.trace) > 4000:
+                        raise Unsupported("more than 4000 branch decisions on one path (non-terminating exploration)")
                     c = fk.cond
                     s2 = st.clone()
                     key = c.v.get_id()
